@@ -6,6 +6,7 @@ set -u
 ID=$1; K=$2; shift 2
 SRC=/tmp/seed_${ID}_${K}
 DST=/verif/seeded/${ID}_${K}
+if [ "${ROUND:-1}" = "2" ]; then SRC=/tmp/seed2_${ID}_${K}; DST=/verif/seeded/${ID}_r2_${K}; fi
 WT=/tmp/wt_eval_$$
 export GOFLAGS=-mod=mod GOPROXY=off GOSUMDB=off GOTOOLCHAIN=local
 [ -f "$SRC/patch.diff" ] || { echo "no patch in $SRC"; exit 2; }
@@ -46,12 +47,12 @@ git -C /repo status --porcelain
 # evidence files written during seeded runs are not evidence for the unchanged tree
 git -C /verif checkout -- evidence 2>/dev/null
 find /verif/replays -name '*.json' -delete 2>/dev/null
-python3 - "$ID" "$K" "$DEMO" "[${RESULTS%,}]" <<'PY'
+python3 - "$ID" "$K" "$DEMO" "[${RESULTS%,}]" "$SRC" "$DST" <<'PY'
 import json,sys
-ID,K,DEMO,res=sys.argv[1:5]
+ID,K,DEMO,res,SRC,DST=sys.argv[1:7]
 meta={"breaks_property":ID,"seed":int(K),"demo_test":DEMO,
- "needs_to_manifest":open(f"/tmp/seed_{ID}_{K}/notes.txt").read() if __import__('os').path.exists(f"/tmp/seed_{ID}_{K}/notes.txt") else "",
+ "needs_to_manifest":open(f"{SRC}/notes.txt").read() if __import__('os').path.exists(f"{SRC}/notes.txt") else "",
  "confirmed":"in a scratch worktree of /repo HEAD: patch applies, package compiles, existing suite passes, demo fails with the change and passes without it",
  "checks_run":json.loads(res)}
-json.dump(meta,open(f"/verif/seeded/{ID}_{K}/meta.json","w"),indent=1)
+json.dump(meta,open(f"{DST}/meta.json","w"),indent=1)
 PY
